@@ -401,6 +401,19 @@ def rule_R4(P, rep):
             rep.ob("R4", "%s:%s has a deadline exit (time test true -> empty-handed return)" % (file, name), bool(dl),
                    "no returning path is guarded by a true elapsed/abstime comparison", loc="%s:%d" % (F.file, F.line),
                    site="%s:%s/deadline" % (file, name))
+            # a timed pop looks at the queue at least once before it gives up (a deadline that has already passed still
+            # returns a unit that is there)
+            sel2 = seq.Sel(calls={"thread_queue_acquire_spinlock_if_not_empty", "thread_queue_pop_head", "thread_queue_pop_tail",
+                                  "thread_queue_is_empty"}, rets=True, locks=True, canon=True)
+            bad = []
+            for toks, kind, rv, rtxt in seq.sequences(F, sel2, max_len=60):
+                if kind != "ret" or rv is None:
+                    continue        # returns a unit: not the empty-handed exit
+                if not any(t[0] in ("call", "try") for t in toks):
+                    bad.append(show(toks))
+            rep.ob("R4", "%s:%s attempts a pop before every empty-handed return" % (file, name), not bad,
+                   "gives up without looking at the queue: %s" % bad[:2], loc="%s:%d" % (F.file, F.line),
+                   site="%s:%s/attempt" % (file, name))
             n += 1
     rep.min_instances("R4", 8)
 
